@@ -41,6 +41,8 @@ type Loc struct {
 	Typ    types.Type
 	Global *ssa.Global
 	Frozen bool // belongs to package-level state computed by init (mutation is undo-logged)
+	Par    *Loc // enclosing array (for elements of backing arrays), used by unsafe.String/Slice
+	Idx    int
 	id     int
 }
 
@@ -199,13 +201,14 @@ func (e *Exec) newArrayLoc(elem types.Type, n int) *Loc {
 		if _, arr := elem.Underlying().(*types.Array); !arr && !isTimeType(elem) {
 			z := e.zero(elem)
 			for i := range l.Kids {
-				l.Kids[i] = &Loc{V: z, Typ: elem}
+				l.Kids[i] = &Loc{V: z, Typ: elem, Par: l, Idx: i}
 			}
 			return l
 		}
 	}
 	for i := range l.Kids {
 		l.Kids[i] = e.newLoc(elem)
+		l.Kids[i].Par, l.Kids[i].Idx = l, i
 	}
 	return l
 }
